@@ -16,7 +16,7 @@ import h_c01
 
 PROPERTY = 'C16'
 HELPERS = os.path.join(hsupport.VERIF, 'helpers/bin')
-CICADA = os.path.join(hsupport.VERIF, 'build/native/debug/cicada')
+CICADA = os.path.join(hsupport.VERIF, 'build/bin/debug/cicada')
 BUDGET = {'quick': 420, 'thorough': 3000}
 BOUNDS = {'quick': dict(max_args=2, max_chars=2, pos_chars=1), 'thorough': dict(max_args=2, max_chars=3, pos_chars=2)}
 ASSUMPTIONS = [
